@@ -44,6 +44,51 @@ theorem select_bitmap_domain (φ : FloatPreds) (s : Stats) (h : selectWith φ s 
             · simp [FOR_, BITMAP] at h
             · simp [TAGGED, BITMAP] at h
 
+theorem changes_lt_length : ∀ (xs : List Nat), xs ≠ [] → changes xs + 1 ≤ xs.length
+  | [], h => absurd rfl h
+  | [_], _ => by simp [changes]
+  | a :: b :: rest, _ => by
+    have := changes_lt_length (b :: rest) (by simp)
+    simp only [changes, List.length_cons] at *
+    split <;> omega
+
+/-- ascending with as many neighbour changes as possible = strictly ascending -/
+theorem asc_all_changes_strict : ∀ (xs : List Nat), isAsc xs = true → 1 + changes xs = xs.length →
+    isStrictAsc xs = true
+  | [], _, _ => rfl
+  | [_], _, _ => rfl
+  | a :: b :: rest, hasc, hch => by
+    simp only [isAsc, Bool.and_eq_true, decide_eq_true_eq] at hasc
+    have hle := changes_lt_length (b :: rest) (by simp)
+    simp only [changes, List.length_cons] at hch hle
+    by_cases hab : a = b
+    · rw [if_neg (by simpa using hab)] at hch; omega
+    · rw [if_pos hab] at hch
+      simp only [isStrictAsc, Bool.and_eq_true, decide_eq_true_eq]
+      refine ⟨by omega, asc_all_changes_strict (b :: rest) hasc.2 ?_⟩
+      simp only [List.length_cons]; omega
+
+/-- stated on the input list itself: whatever the float comparisons say, automatic selection picks BITMAP
+    only for a strictly increasing sequence of fewer than 10000 values, all below 65536 — the documented
+    domain of the bitmap encoding, on which it is lossless. The uniqueness test cannot be fooled by sampling
+    or by a failed allocation: for sorted input the count is exact. -/
+theorem select_bitmap_input (φ : FloatPreds) (xs : List Nat) (h : selectWith φ (analyze xs) = BITMAP) :
+    isStrictAsc xs = true ∧ (∀ x ∈ xs, x < 65536) ∧ xs.length < 10000 := by
+  obtain ⟨hs, hu, hf, hc⟩ := select_bitmap_domain φ _ h
+  simp only [analyze] at hs hu hf hc
+  have hne : xs ≠ [] := by
+    intro he; subst he
+    simp [selectWith, analyze, TAGGED, BITMAP] at h
+  refine ⟨?_, ?_, hc⟩
+  · apply asc_all_changes_strict xs hs
+    unfold uniqueOf at hu
+    rw [if_neg hne, hs] at hu
+    simpa using hu
+  · intro x hx
+    have := FOR.le_maxL xs x hx
+    have hm : FOR.maxL xs < 65536 := by simpa using hf
+    omega
+
 theorem decTagged_enc (xs : List Nat) (hx : ∀ x ∈ xs, x < 2 ^ 64) (rest : List Nat) :
     decTagged xs.length (xs.flatMap Tagged.enc ++ rest) = some xs := by
   induction xs with
